@@ -454,7 +454,7 @@ def run(chk: core.Check):
         "histories that change a shared scorer's parameters directly and predict without refitting are outside the statement and not generated",
         "update(ndarray) raises AttributeError on the current tree: a listed known finding, not generated here (see C11)"]
     rng = core.rng_for(chk.seed, "C10/hist")
-    hs = [gen_history(rng, L) for _ in range(N)]
+    hs = core.Gen(gen_history, rng, L, N)
     res = chk.run_stream("histories", hs, impl, oracle=oracle, site="histories", per_case_timeout=120,
                          nontrivial=lambda c, r: r.get("compared", 0) >= 3,
                          describe=lambda c: {"objs": [o["kind"] for o in c["objs"]], "ops": [f"{o['op']}@{o['o']}" for o in c["ops"]][:12]})
